@@ -206,6 +206,10 @@ def run_case(case, res):
     cond = max(max(abs(a[k]), abs(b[k])) / (width[k] / 2 ** finest) for k in range(d))
     itol = (1e-12 + 4e-16 * cond)
     if P and not mixed:   # interpolation on mixed-boundary grids is outside the sparse-grid interpolant (zero / non-zero boundary mix)
+        if len(P) >= 2 and rng.random() < 0.4:
+            # an evaluation list may contain a point several times
+            P = P + [P[rng.randrange(len(P))] for _ in range(rng.randint(1, 5))]
+            res.count("evaluation_list_with_repeated_points")
         Pg = P
         if mode in ("int_list", "int_tuple", "int_array"):
             Pg = [tuple(int(x) if float(x).is_integer() else x for x in p) for p in P]
